@@ -9,7 +9,6 @@ exactly-zero gradient w.r.t. target networks / target policies / bootstrap input
 """
 
 import itertools
-import math
 from collections import namedtuple
 
 import gymnasium as gym
